@@ -53,8 +53,9 @@ func borrowHeader() *storage.Header {
 
 func returnHeader(hdr *storage.Header) {
 	destroyHeader(hdr)
-	if len(headerPool) < cap(headerPool) {
-		headerPool <- hdr
+	select { // non-blocking, see ReturnTensor
+	case headerPool <- hdr:
+	default:
 	}
 }
 
@@ -110,8 +111,11 @@ func ReturnTensor(t Tensor) {
 		tt.maskIsSoft = false
 
 		// densePool.Put(tt)
-		if len(densePool) < cap(densePool) {
-			densePool <- tt
+		// a non-blocking send, not "if len < cap then send": when two goroutines return tensors while the
+		// pool is one short of full, both pass that check and the second one blocks forever
+		select {
+		case densePool <- tt:
+		default:
 		}
 	}
 }
@@ -235,8 +239,9 @@ func ReturnBools(is []bool) {
 		is[i] = false
 	}
 
-	if len(boolsPool) < cap(boolsPool) {
-		boolsPool <- is
+	select { // non-blocking, see ReturnTensor
+	case boolsPool <- is:
+	default:
 	}
 	// boolsPool[size].Put(is)
 }
